@@ -19,8 +19,10 @@ Lemma do_step_sent fl ft r s :
     (forall c, In c l -> s = DestCmd c).
 Proof.
   unfold do_step. destruct s as [c|p0].
-  - exists [c].
-    destruct (mutating c && mem_nat (rs_mut r) (ft_dest ft)) eqn:Einj; cbn [fst snd].
+  - destruct (mutating c && match ft_stop ft with Some n => Nat.leb n (rs_mut r) | None => false end) eqn:Estop.
+    { exists []. cbn [fst snd rs_sent rs_d]. rewrite app_nil_r. repeat split; auto; try (intros ? []). }
+    exists [c].
+    destruct (mutating c && negb (is_chunk c) && mem_nat (rs_mut r) (ft_dest ft)) eqn:Einj; cbn [fst snd].
     + cbn [rs_sent rs_d]. repeat split; auto. intros c' [<-|[]]; reflexivity.
     + destruct (doer_exec fl (rs_d r) c) as [d' err] eqn:E. cbn [fst snd].
       destruct err; cbn [rs_sent rs_d]; repeat split; auto;
